@@ -130,6 +130,13 @@ def run(tier):
             if o is not None and model[i] is not None and strip_text(o) != model[i]:
                 rep.broken_obligation("correspondence/read", "model %r vs code %r on %s" % (model[i][:300], o[:300], lines[i][:200]), False)
                 break
+        # (a') the bytes after `length` are not part of the input: documents ending where a reader function looks ahead
+        edge = [b'"""', b'""', b'"', b'"a', b"#", b"##", b"##In", b"##Inf", b"1", b"-", b"1e", b"1.", b"1.5", b"12345678901234567890.5", b":a", b"a/", b"\\u00",
+                b"\\new", b"\\newline", b"\\o1", b"\\u0041", b"#_", b"#_ 1", b"^", b"nil", b"tru", b"[1 2]", b"[1 2", b"#foo", b"#:a", b"#:a{", b"0x", b"0x1", b"1/", b"1/2",
+                b"2r1", b"1N", b"1M", b"1_", b"1_0", b'"""\n a', b'"""\n a\n ', b'"""\n a\n "', b'"""\n a\n ""', b";c", b"a ;c"] + tails
+        edge += [d for d in docs[:: max(1, len(docs) // 60)] if len(d) < 4000]
+        if U.tail_independence(rep, cfg, edge, [b"\n", b"x", b'"""', b"f 1]", b"0", b"e5 ", b"\\", b"N", b"_1", b"/2", b"\x00"], mode="o2"):
+            found = True
         # (b) history, heap fill pattern, read-only pages
         order = list(range(len(lines)))
         rng.shuffle(order)
